@@ -4,6 +4,7 @@ Property theorems only; the model is `Model/Config.lean`.
 -/
 import PrimaiteModel.Model.Config
 import PrimaiteModel.Props.C07
+import PrimaiteModel.Props.C20Office
 import PrimaiteModel.Gen.Config
 namespace Primaite.Config
 open Primaite.Acl
@@ -19,6 +20,18 @@ theorem alookup_none_of_not_mem {κ α} [DecidableEq κ] (k : κ) (m : Assoc κ 
     have h1 : ¬ k' = k := fun e => h.1 e.symm
     simp only [alookup, h1, if_false]
     exact ih (by simpa [keys] using h.2)
+
+theorem mem_of_alookup {κ α} [DecidableEq κ] (k : κ) (v : α) (m : Assoc κ α) (h : alookup k m = some v) : (k, v) ∈ m := by
+  induction m with
+  | nil => simp [alookup] at h
+  | cons e rest ih =>
+    obtain ⟨k', v'⟩ := e
+    simp only [alookup] at h
+    by_cases hk : k' = k
+    · simp only [hk, if_true, Option.some.injEq] at h
+      simp [hk, h]
+    · simp only [hk, if_false] at h
+      exact List.mem_cons_of_mem _ (ih h)
 
 /-- **per-site lemma for every mapping read by key**: the value under a key does not depend on the order of the entries
 (Python dict keys are unique). Covers `.get`, `[...]` and pydantic schema construction. -/
@@ -45,7 +58,7 @@ theorem C20_lookup_perm {κ α} [DecidableEq κ] (k : κ) {m m' : Assoc κ α} (
     exact (ih₁ hn).trans (ih₂ (by simpa [keys] using hn'))
 
 /-- folding a partial update over a list does not depend on the order of the list when updates with different keys commute. -/
-theorem foldM?_perm {σ α} (f : σ → α → Option σ) (key : α → Nat)
+theorem foldM?_perm {σ α κ} (f : σ → α → Option σ) (key : α → κ)
     (hcomm : ∀ s a b, key a ≠ key b → (f s a).bind (fun s' => f s' b) = (f s b).bind (fun s' => f s' a))
     {l l' : List α} (hp : l.Perm l') (hn : (l.map key).Nodup) : ∀ s, foldM? f s l = foldM? f s l' := by
   induction hp with
@@ -316,7 +329,8 @@ theorem liveCount_of_nodup (insts : List Soft) (s : Soft) (hn : (insts.map (·.n
 its name with its own options. -/
 theorem softInventory_of_nodup (insts : List Soft) (hn : (insts.map (·.name)).Nodup) :
     softInventory insts = insts.map fun s =>
-      { name := s.name, isApp := s.isApp, opts := s.opts, live := 1, running := s.running, health := s.health } := by
+      { name := s.name, isApp := s.isApp, opts := readAll s.name s.opts, live := 1, running := s.running, health := s.health,
+        imposedFix := s.imposedFix, imposedRestart := s.imposedRestart } := by
   unfold softInventory
   apply List.map_congr_left
   intro s hs
@@ -414,7 +428,8 @@ theorem lastRequests_names (reqs : List Soft) : ∀ s ∈ reqs, s.name ∈ (last
 theorem softInventory_installed (reqs : List Soft) :
     softInventory (installedAfter reqs)
       = (lastRequests reqs).map fun s =>
-          { name := s.name, isApp := s.isApp, opts := s.opts, live := 1, running := s.running, health := s.health } := by
+          { name := s.name, isApp := s.isApp, opts := readAll s.name s.opts, live := 1, running := s.running, health := s.health,
+            imposedFix := s.imposedFix, imposedRestart := s.imposedRestart } := by
   rw [installedAfter_eq_lastRequests]
   exact softInventory_of_nodup _ (lastRequests_nodup reqs)
 
@@ -443,7 +458,8 @@ theorem lastRequests_map (f : SoftReq → Soft) (hf : ∀ r, (f r).name = r.name
 /-- software on a node that is not ON is never started: whatever the class's constructor, `install` and the loader attempt,
 the instance stays STOPPED / CLOSED with its configured starting health. -/
 theorem newInstance_not_on (p : Power) (hp : p ≠ .on) (r : SoftReq) :
-    newInstance p r = ({ name := r.name, isApp := r.isApp, opts := r.opts, running := false, health := r.health0 } : Soft) := by
+    newInstance p r = ({ name := r.name, isApp := r.isApp, opts := r.opts, running := false, health := r.health0,
+                         imposedFix := r.imposedFix, imposedRestart := r.imposedRestart } : Soft) := by
   have hs : ∀ s : Soft, startSw p s = s := by intro s; simp [startSw, hp]
   unfold newInstance
   cases r.initStarts <;> cases r.isApp <;> cases r.configured <;> simp [hs]
@@ -453,20 +469,139 @@ for EVERY combination of "constructor starts it", "service or application", "con
 theorem startSw_newInstance_on (r : SoftReq) :
     startSw .on (newInstance .on r) =
       ({ name := r.name, isApp := r.isApp, opts := r.opts, running := true,
-         health := (if r.health0 = .unused then .good else r.health0) } : Soft) := by
+         health := (if r.health0 = .unused then .good else r.health0),
+         imposedFix := r.imposedFix, imposedRestart := r.imposedRestart } : Soft) := by
   unfold newInstance
   cases hh : r.health0 <;> cases r.initStarts <;> cases r.isApp <;> cases r.configured <;> simp [startSw, hh]
 
-/-- **initial software state**: after loading, the software of a node whose declared operating state is `p` — one instance per
-requested name, RUNNING iff `p` is ON, health = the configured starting health (UNUSED → GOOD once started). -/
-theorem softInventory_loaded (p : Power) (k : Kind) (n : NodeCfg) :
-    softInventory (powerOnSoftware p (installedAfter (installAll p k n))) = declaredSoftware p k n := by
-  unfold installAll declaredSoftware
+/-! ### configured options and the live attributes that carry them -/
+
+theorem alookup_aset_self {κ α} [DecidableEq κ] (k : κ) (v : α) (m : Assoc κ α) : alookup k (aset k v m) = some v := by
+  induction m with
+  | nil => simp [aset, alookup]
+  | cons e rest ih =>
+    obtain ⟨k', v'⟩ := e
+    by_cases h : k' = k <;> simp [aset, alookup, h, ih]
+
+theorem alookup_aset_ne {κ α} [DecidableEq κ] (k k' : κ) (v : α) (m : Assoc κ α) (h : k' ≠ k) :
+    alookup k' (aset k v m) = alookup k' m := by
+  induction m with
+  | nil =>
+    have : ¬ k = k' := fun e => h e.symm
+    simp [aset, alookup, this]
+  | cons e rest ih =>
+    obtain ⟨k₂, v₂⟩ := e
+    by_cases h2 : k₂ = k
+    · subst h2
+      have : ¬ k₂ = k' := fun e => h e.symm
+      simp [aset, alookup, this]
+    · by_cases h3 : k₂ = k'
+      · subst h3
+        simp [aset, alookup, h2]
+      · simp [aset, alookup, h2, h3, ih]
+
+theorem constructLive_untouched (opts : Assoc String String) (attr : String) :
+    ∀ (rows : List (String × String × String)) (acc : Assoc String (Option String)), attr ∉ rows.map (·.2.1) →
+      alookup attr (rows.foldl (fun live r => aset r.2.1 (alookup r.2.2 opts) live) acc) = alookup attr acc := by
+  intro rows
+  induction rows with
+  | nil => intro acc _; rfl
+  | cons x rest ih =>
+    intro acc h
+    simp only [List.map_cons, List.mem_cons, not_or] at h
+    simp only [List.foldl_cons]
+    rw [ih _ h.2, alookup_aset_ne _ _ _ _ h.1]
+
+/-- **a constructor chain that assigns each attribute once leaves, in the attribute of every row, the configured option of that
+row** (whatever else the chain assigns, in whatever order). -/
+theorem constructLive_row (opts : Assoc String String) :
+    ∀ (rows : List (String × String × String)) (acc : Assoc String (Option String)), (rows.map (·.2.1)).Nodup →
+      ∀ r ∈ rows, alookup r.2.1 (rows.foldl (fun live r => aset r.2.1 (alookup r.2.2 opts) live) acc) = some (alookup r.2.2 opts) := by
+  intro rows
+  induction rows with
+  | nil => intro _ _ r hr; simp at hr
+  | cons x rest ih =>
+    intro acc hn r hr
+    simp only [List.map_cons, List.nodup_cons] at hn
+    simp only [List.foldl_cons]
+    rcases List.mem_cons.mp hr with rfl | hr
+    · rw [constructLive_untouched opts _ rest _ hn.1, alookup_aset_self]
+    · exact ih _ hn.2 r hr
+
+/-- in every constructor chain of the regenerated tables each live attribute is assigned exactly once -/
+theorem chainRows_attrs_nodup (name : String) : ((chainRows name).map (·.2.1)).Nodup := by
+  unfold chainRows
+  cases h : alookup name classChains with
+  | none => simp
+  | some chain =>
+    have hm := mem_of_alookup name chain classChains h
+    have hall : ∀ e ∈ classChains, ((e.2.flatMap fun c => initApplies.filter (fun r => r.1 = c)).map (·.2.1)).Nodup := by decide
+    exact hall _ hm
+
+theorem alookup_of_mem {κ α} [DecidableEq κ] (m : Assoc κ α) (hn : (keys m).Nodup) (k : κ) (v : α) (h : (k, v) ∈ m) :
+    alookup k m = some v := by
+  induction m with
+  | nil => simp at h
+  | cons e rest ih =>
+    obtain ⟨k', v'⟩ := e
+    simp only [keys, List.map_cons, List.nodup_cons] at hn
+    rcases List.mem_cons.mp h with e | h
+    · cases e; simp [alookup]
+    · have : ¬ k' = k := by
+        intro e; subst e
+        exact hn.1 (List.mem_map_of_mem (f := (·.1)) h)
+      simp only [alookup, this, if_false]
+      exact ih (by simpa [keys] using hn.2) h
+
+/-- **the live attribute equals the declared option**: for EVERY software name and EVERY option mapping (unique keys), an
+option the file gives shows on the built software — read from the attribute the constructor chain assigned it to, or from the
+config object when no constructor copies it — with exactly the value the file gives. -/
+theorem C20_live_option_eq_declared (name : String) (opts : Assoc String String) (hn : (keys opts).Nodup) (k v : String)
+    (h : (k, v) ∈ opts) : readOption name opts k = some v := by
+  have hk := alookup_of_mem opts hn k v h
+  unfold readOption
+  cases hf : (chainRows name).reverse.find? (fun r => r.2.2 = k) with
+  | none => simpa using hk
+  | some r =>
+    have hmem : r ∈ chainRows name := by
+      have := List.mem_of_find?_eq_some hf
+      simpa using this
+    have hopt : r.2.2 = k := by
+      have := List.find?_some hf
+      simpa using this
+    simp only [constructLive]
+    rw [constructLive_row opts _ [] (chainRows_attrs_nodup name) r hmem, hopt, hk]
+    rfl
+
+theorem readAll_declared (name : String) (opts : Assoc String String) (hn : (keys opts).Nodup) :
+    readAll name opts = opts.map fun e => (e.1, some e.2) := by
+  unfold readAll
+  apply List.map_congr_left
+  intro e he
+  rw [C20_live_option_eq_declared name opts hn e.1 e.2 he]
+
+/-- per class, straight from the regenerated assignment table: for every row `(class, attribute, option)` and every software whose
+constructor chain contains that class, the live attribute holds the configured option after construction. -/
+theorem C20_live_attribute_per_class (name : String) (opts : Assoc String String) (r : String × String × String)
+    (hr : r ∈ chainRows name) :
+    alookup r.2.1 (constructLive (chainRows name) opts) = some (alookup r.2.2 opts) :=
+  constructLive_row opts _ [] (chainRows_attrs_nodup name) r hr
+
+/-! ### initial state of software: started exactly on a node that is ON -/
+
+/-- the loader's software of a node whose declared operating state is `p`, options still as the walker reads them -/
+theorem softInventory_loaded_read (d : DefaultsCfg) (p : Power) (k : Kind) (n : NodeCfg) :
+    softInventory (powerOnSoftware p (installedAfter (installAll d p k n)))
+      = (lastReqs (installRequests d k n)).map fun r =>
+          { name := r.name, isApp := r.isApp, live := 1, opts := readAll r.name r.opts,
+            imposedFix := r.imposedFix, imposedRestart := r.imposedRestart, running := decide (p = .on),
+            health := if p = .on ∧ r.health0 = .unused then .good else r.health0 } := by
+  unfold installAll
   rw [installedAfter_eq_lastRequests, lastRequests_map _ (newInstance_name p)]
   by_cases hp : p = .on
   · subst hp
-    have hnd : (List.map (·.name) (((lastReqs (installRequests k n)).map (newInstance .on)).map (startSw .on))).Nodup := by
-      have := lastRequests_nodup ((installRequests k n).map (newInstance .on))
+    have hnd : (List.map (·.name) (((lastReqs (installRequests d k n)).map (newInstance .on)).map (startSw .on))).Nodup := by
+      have := lastRequests_nodup ((installRequests d k n).map (newInstance .on))
       rw [lastRequests_map _ (newInstance_name .on)] at this
       simpa [List.map_map, Function.comp_def, startSw_name] using this
     simp only [powerOnSoftware, if_true]
@@ -475,8 +610,8 @@ theorem softInventory_loaded (p : Power) (k : Kind) (n : NodeCfg) :
     apply List.map_congr_left
     intro r _
     by_cases hh : r.health0 = .unused <;> simp [startSw_newInstance_on, hh]
-  · have hnd : (List.map (·.name) ((lastReqs (installRequests k n)).map (newInstance p))).Nodup := by
-      have := lastRequests_nodup ((installRequests k n).map (newInstance p))
+  · have hnd : (List.map (·.name) ((lastReqs (installRequests d k n)).map (newInstance p))).Nodup := by
+      have := lastRequests_nodup ((installRequests d k n).map (newInstance p))
       rwa [lastRequests_map _ (newInstance_name p)] at this
     simp only [powerOnSoftware, hp, if_false]
     rw [softInventory_of_nodup _ hnd]
@@ -484,6 +619,70 @@ theorem softInventory_loaded (p : Power) (k : Kind) (n : NodeCfg) :
     apply List.map_congr_left
     intro r _
     simp [newInstance_not_on p hp, hp]
+
+theorem lastReqs_sub : ∀ (l : List SoftReq), ∀ y ∈ lastReqs l, y ∈ l := by
+  intro l
+  induction l with
+  | nil => intro y hy; simp [lastReqs] at hy
+  | cons a t iht =>
+    intro y hy
+    unfold lastReqs at hy
+    split at hy
+    · exact List.mem_cons_of_mem _ (iht y hy)
+    · rcases List.mem_cons.mp hy with rfl | hy
+      · exact List.mem_cons_self
+      · exact List.mem_cons_of_mem _ (iht y hy)
+
+/-- every install request of a node carries the option mapping of a `services:` / `applications:` entry, or none -/
+theorem installServices_opts (d : DefaultsCfg) : ∀ (l : List SwCfg) (seen : List String), ∀ r ∈ installServices d seen l,
+    r.opts = [] ∨ ∃ c ∈ l, r.opts = c.opts := by
+  intro l
+  induction l with
+  | nil => intro seen r hr; simp [installServices] at hr
+  | cons c rest ih =>
+    intro seen r hr
+    by_cases hdb : c.type = "database-service" ∧ "ftp-client" ∉ seen
+    · simp only [installServices, hdb, and_self, if_true] at hr
+      rcases List.mem_cons.mp hr with rfl | hr
+      · right; exact ⟨c, by simp, rfl⟩
+      · rcases List.mem_cons.mp hr with rfl | hr
+        · left; rfl
+        · rcases ih _ r hr with h | ⟨c', hc', h⟩
+          · left; exact h
+          · right; exact ⟨c', by simp [hc'], h⟩
+    · simp only [installServices, hdb, if_false] at hr
+      rcases List.mem_cons.mp hr with rfl | hr
+      · right; exact ⟨c, by simp, rfl⟩
+      · rcases ih _ r hr with h | ⟨c', hc', h⟩
+        · left; exact h
+        · right; exact ⟨c', by simp [hc'], h⟩
+
+def OptsOk (n : NodeCfg) : Prop := ∀ c ∈ n.services ++ n.applications, (keys c.opts).Nodup
+
+theorem installRequests_opts_nodup (d : DefaultsCfg) (k : Kind) (n : NodeCfg) (h : OptsOk n) :
+    ∀ r ∈ installRequests d k n, (keys r.opts).Nodup := by
+  intro r hr
+  unfold installRequests at hr
+  rcases List.mem_append.mp hr with hr | hr
+  · rcases List.mem_append.mp hr with hr | hr
+    · obtain ⟨e, _, rfl⟩ := List.mem_map.mp hr
+      simp [keys, sysReq]
+    · rcases installServices_opts d _ _ r hr with h0 | ⟨c, hc, h0⟩
+      · rw [h0]; simp [keys]
+      · rw [h0]; exact h c (by simp [hc])
+  · obtain ⟨c, hc, rfl⟩ := List.mem_map.mp hr
+    exact h c (by simp [hc])
+
+/-- **initial software state**: after loading, the software of a node whose declared operating state is `p` — one instance per
+requested name, RUNNING iff `p` is ON, health = the configured starting health (UNUSED → GOOD once started), every declared
+option showing with its declared value. -/
+theorem softInventory_loaded (d : DefaultsCfg) (p : Power) (k : Kind) (n : NodeCfg) (h : OptsOk n) :
+    softInventory (powerOnSoftware p (installedAfter (installAll d p k n))) = declaredSoftware d p k n := by
+  rw [softInventory_loaded_read]
+  unfold declaredSoftware
+  apply List.map_congr_left
+  intro r hr
+  rw [readAll_declared r.name r.opts (installRequests_opts_nodup d k n h r (lastReqs_sub _ r hr))]
 
 /-! ### add-if-absent loops (users, folders, files, agents) -/
 
@@ -628,18 +827,33 @@ structure NodeWF (n : NodeCfg) : Prop where
             | none => n.fwAclPresent = true → e.2.2 = false)
   users : ("admin" :: n.users.map (·.name)).Nodup
   folders : FoldersOk n.folders
+  /-- an `options:` mapping has unique keys (true of every parsed YAML mapping) -/
+  opts : OptsOk n
+  /-- a wireless access point operates on a registered frequency -/
+  wap : ∀ w, n.wap = some w → knownFrequency w.frequency = true
+
+/-- is interface `port` of node `n` a wireless access point? -/
+def wirelessAt (n : NodeInv) (port : Nat) : Bool := (n.nics[port - 1]?.bind (·.frequency)).isSome
 
 def linkOk (nodes : List NodeInv) (l : LinkCfg) : Bool :=
   match findNode nodes l.a, findNode nodes l.b with
-  | some na, some nb => decide (1 ≤ l.pa ∧ l.pa ≤ na.nics.length ∧ 1 ≤ l.pb ∧ l.pb ≤ nb.nics.length ∧ l.a ≠ l.b)
+  | some na, some nb =>
+    decide (1 ≤ l.pa ∧ l.pa ≤ na.nics.length ∧ 1 ≤ l.pb ∧ l.pb ≤ nb.nics.length ∧ l.a ≠ l.b) &&
+      !wirelessAt na l.pa && !wirelessAt nb l.pb
   | _, _ => false
+
+def AirspaceOk (m : Assoc String String) : Prop := (keys m).Nodup ∧ ∀ k ∈ keys m, knownFrequency k = true
 
 structure WellFormed (s : Scenario) : Prop where
   nodes : ∀ n ∈ s.nodes, NodeWF n
-  /-- "The hostname of the node. This will be used to reference the node." -/
-  hostnames : (s.nodes.map (·.hostname)).Nodup
-  links : ∀ l ∈ s.links, linkOk (s.nodes.map declaredNode) l = true
+  /-- every `office-lan` entry passes its schema's and the adder's guards -/
+  nodeSets : ∀ c ∈ s.nodeSets, OfficeValid c
+  /-- "The hostname of the node. This will be used to reference the node." — over the `nodes:` entries and the nodes the node
+  sets stand for -/
+  hostnames : ((declaredNodes s).map (·.hostname)).Nodup
+  links : ∀ l ∈ s.links, linkOk (declaredNodes s) l = true
   agents : (s.agents.map (·.ref)).Nodup
+  airspace : AirspaceOk s.airspace
 
 /-! ### build = declared -/
 
@@ -703,42 +917,44 @@ theorem powerOnNics_unwired (p : Power) (nics : List Nic) (h : ∀ c ∈ nics, c
     exact (List.map_congr_left this).trans (List.map_id _)
   · rfl
 
-/-- the interfaces of a freshly built node have no link and are disabled (links come later) -/
-theorem declaredNode_fresh (n : NodeCfg) : ∀ c ∈ (declaredNode n).nics, c.wired = false ∧ c.enabled = false := by
+/-- before any link: an interface is a wireless access point, or has no link and is disabled -/
+def Fresh (c : Nic) : Prop := c.wired = false ∧ (c.frequency.isSome ∨ c.enabled = false)
+
+/-- the interfaces of a freshly built node have no link; the wired ones are disabled (links come later) -/
+theorem declaredNode_fresh (d : DefaultsCfg) (n : NodeCfg) : ∀ c ∈ (declaredNode d n).nics, Fresh c := by
   intro c hc
   unfold declaredNode at hc
+  have host : ∀ c ∈ ({ name := none, ip := n.ip, mask := some (n.mask.getD defaultMask) } : Nic) :: declaredNics n.nics, Fresh c := by
+    intro c hc
+    rcases List.mem_cons.mp hc with rfl | hc
+    · exact ⟨rfl, Or.inr rfl⟩
+    · simp only [declaredNics, List.mem_map] at hc
+      obtain ⟨e, _, rfl⟩ := hc
+      exact ⟨rfl, Or.inr rfl⟩
   cases hk : n.kind <;> simp only [hk] at hc
-  · rcases List.mem_cons.mp hc with rfl | hc
-    · exact ⟨rfl, rfl⟩
-    · simp only [declaredNics, List.mem_map] at hc
-      obtain ⟨e, _, rfl⟩ := hc
-      exact ⟨rfl, rfl⟩
-  · rcases List.mem_cons.mp hc with rfl | hc
-    · exact ⟨rfl, rfl⟩
-    · simp only [declaredNics, List.mem_map] at hc
-      obtain ⟨e, _, rfl⟩ := hc
-      exact ⟨rfl, rfl⟩
-  · rcases List.mem_cons.mp hc with rfl | hc
-    · exact ⟨rfl, rfl⟩
-    · simp only [declaredNics, List.mem_map] at hc
-      obtain ⟨e, _, rfl⟩ := hc
-      exact ⟨rfl, rfl⟩
+  · exact host c hc
+  · exact host c hc
+  · exact host c hc
   · rcases List.mem_replicate.mp hc with ⟨_, rfl⟩
-    exact ⟨rfl, rfl⟩
+    exact ⟨rfl, Or.inr rfl⟩
   · simp only [declaredPorts, List.mem_map] at hc
     obtain ⟨i, _, rfl⟩ := hc
-    split <;> exact ⟨rfl, rfl⟩
+    split <;> exact ⟨rfl, Or.inr rfl⟩
   · simp only [List.mem_cons, List.not_mem_nil, or_false] at hc
-    rcases hc with rfl | rfl | rfl <;> (unfold declaredFwNic; split <;> exact ⟨rfl, rfl⟩)
+    rcases hc with rfl | rfl | rfl <;> (unfold declaredFwNic; split <;> exact ⟨rfl, Or.inr rfl⟩)
+  · simp only [List.mem_cons, List.not_mem_nil, or_false] at hc
+    rcases hc with rfl | rfl
+    · unfold declaredWap; split <;> exact ⟨rfl, Or.inl rfl⟩
+    · unfold declaredRouterIf; split <;> exact ⟨rfl, Or.inr rfl⟩
 
 /-- One node entry: the loader builds exactly what the entry declares (before any link is made). -/
-theorem buildNode_eq_declared (n : NodeCfg) (wf : NodeWF n) : buildNode n = .ok (declaredNode n) := by
-  have hsoft : softInventory (powerOnSoftware (n.power.getD .on) (installedAfter (installAll (n.power.getD .on) n.kind n)))
-      = declaredSoftware (n.power.getD .on) n.kind n := softInventory_loaded _ _ _
+theorem buildNode_eq_declared (d : DefaultsCfg) (n : NodeCfg) (wf : NodeWF n) : buildNode d n = .ok (declaredNode d n) := by
+  have hsoft : softInventory (powerOnSoftware (n.power.getD .on) (installedAfter (installAll d (n.power.getD .on) n.kind n)))
+      = declaredSoftware d (n.power.getD .on) n.kind n := softInventory_loaded _ _ _ _ wf.opts
   have husers : buildUsers n = declaredUsers n := buildUsers_eq_declared n wf.users
   have hfold : buildFolders n = n.folders := buildFolders_eq_declared n wf.folders
-  have hfresh := declaredNode_fresh n
-  have hnics : powerOnNics (n.power.getD .on) (declaredNode n).nics = (declaredNode n).nics :=
+  have hfresh := declaredNode_fresh d n
+  have hnics : powerOnNics (n.power.getD .on) (declaredNode d n).nics = (declaredNode d n).nics :=
     powerOnNics_unwired _ _ (fun c hc => (hfresh c hc).1)
   unfold declaredNode at hnics
   unfold buildNode declaredNode
@@ -790,13 +1006,25 @@ theorem buildNode_eq_declared (n : NodeCfg) (wf : NodeWF n) : buildNode n = .ok 
     have hd := fwNic_eq n "dmz_port" "dmz" false (Or.inr (Or.inr rfl))
     have hacls := buildFwAcls_eq n fwAclNames wf.fwAcl
     simp [hk, hsoft, husers, hi, he, hd, hacls, declaredFwAcls_eq, hnics]
+  | wirelessRouter =>
+    rw [hk] at hsoft
+    simp only [hk] at hnics
+    have hacl := addRules_eq_declared n.acl routerBaseAcl wf.acl.1 (by simpa [routerBaseAcl, aclSlots] using wf.acl.2)
+    cases hw : n.wap with
+    | none =>
+      simp only [hw, declaredWap, declaredRouterIf] at hnics
+      simp [hk, hsoft, husers, hacl, hw, declaredWap, declaredRouterIf, hnics]
+    | some w =>
+      have hf := wf.wap w hw
+      simp only [hw, declaredWap, declaredRouterIf] at hnics
+      simp [hk, hsoft, husers, hacl, hw, hf, declaredWap, declaredRouterIf, hnics]
 
-theorem buildNodes_eq_declared (ns : List NodeCfg) (wf : ∀ n ∈ ns, NodeWF n) :
-    buildNodes ns = .ok (ns.map declaredNode) := by
+theorem buildNodes_eq_declared (d : DefaultsCfg) (ns : List NodeCfg) (wf : ∀ n ∈ ns, NodeWF n) :
+    buildNodes d ns = .ok (ns.map (declaredNode d)) := by
   induction ns with
   | nil => rfl
   | cons n rest ih =>
-    simp only [buildNodes, buildNode_eq_declared n (wf n (by simp)),
+    simp only [buildNodes, buildNode_eq_declared d n (wf n (by simp)),
       ih (fun m hm => wf m (by simp [hm])), List.map_cons]
 
 theorem buildLink_eq_declared (nodes : List NodeInv) (l : LinkCfg) (hl : linkOk nodes l = true) :
@@ -809,17 +1037,16 @@ theorem buildLink_eq_declared (nodes : List NodeInv) (l : LinkCfg) (hl : linkOk 
     cases hb : findNode nodes l.b with
     | none => simp [ha, hb] at hl
     | some nb =>
-      simp only [ha, hb, decide_eq_true_eq] at hl
+      simp only [ha, hb, Bool.and_eq_true, decide_eq_true_eq, Bool.not_eq_true', wirelessAt] at hl
+      obtain ⟨⟨hl, hwa⟩, hwb⟩ := hl
       have h4 : 1 ≤ l.pa ∧ l.pa ≤ na.nics.length ∧ 1 ≤ l.pb ∧ l.pb ≤ nb.nics.length := ⟨hl.1, hl.2.1, hl.2.2.1, hl.2.2.2.1⟩
-      simp [h4, hl.2.2.2.2]
+      simp [h4, hl.2.2.2.2, hwa, hwb]
 
 /-! ### initial state of the interfaces: wired iff a link of the file ends there, enabled iff wired and the node is ON -/
 
-/-- the effect on one interface of "some link of the file ends here" -/
+/-- the effect on one interface of "some link of the file ends here" (a wireless access point has no link) -/
 def wire (p : Power) (w : Bool) (c : Nic) : Nic :=
-  if w then { c with wired := true, enabled := decide (p = .on) } else c
-
-def Fresh (c : Nic) : Prop := c.wired = false ∧ c.enabled = false
+  if w = true ∧ c.frequency.isNone then { c with wired := true, enabled := decide (p = .on) } else c
 
 theorem declaredWiring_eq (links : List LinkCfg) (n : NodeInv) :
     declaredWiring links n =
@@ -832,10 +1059,15 @@ theorem declaredWiring_eq (links : List LinkCfg) (n : NodeInv) :
 theorem plug_wire (p : Power) (w : Bool) (c : Nic) (hc : Fresh c) : plug p (wire p w c) = wire p true c := by
   obtain ⟨h1, h2⟩ := hc
   cases c with
-  | mk name ip mask wired enabled =>
+  | mk name ip mask wired enabled frequency =>
     simp only at h1 h2
-    subst h1; subst h2
-    cases w <;> by_cases hp : p = .on <;> simp [plug, wire, enableNic, hp]
+    subst h1
+    cases frequency with
+    | some f => simp [plug, wire]
+    | none =>
+      simp only [Option.isSome_none, Bool.false_eq_true, false_or] at h2
+      subst h2
+      cases w <;> by_cases hp : p = .on <;> simp [plug, wire, enableNic, hp]
 
 theorem modify_plug_mapIdx (p : Power) (nics : List Nic) (hf : ∀ c ∈ nics, Fresh c) (W : Nat → Bool) (port : Nat)
     (hport : 1 ≤ port) :
@@ -887,11 +1119,22 @@ theorem declaredWiring_power (links : List LinkCfg) (n : NodeInv) : (declaredWir
 theorem declaredWiring_length (links : List LinkCfg) (n : NodeInv) : (declaredWiring links n).nics.length = n.nics.length := by
   simp [declaredWiring]
 
+theorem wire_frequency (p : Power) (w : Bool) (c : Nic) : (wire p w c).frequency = c.frequency := by
+  unfold wire; split <;> rfl
+
+theorem declaredWiring_wirelessAt (links : List LinkCfg) (n : NodeInv) (port : Nat) :
+    wirelessAt (declaredWiring links n) port = wirelessAt n port := by
+  rw [declaredWiring_eq]
+  simp only [wirelessAt, List.getElem?_mapIdx]
+  cases n.nics[port - 1]? with
+  | none => rfl
+  | some c => simp [wire_frequency]
+
 theorem linkOk_wired (done : List LinkCfg) (nodes : List NodeInv) (l : LinkCfg) :
     linkOk (nodes.map (declaredWiring done)) l = linkOk nodes l := by
   unfold linkOk
   rw [findNode_map _ (declaredWiring_hostname done), findNode_map _ (declaredWiring_hostname done)]
-  cases findNode nodes l.a <;> cases findNode nodes l.b <;> simp [declaredWiring_length]
+  cases findNode nodes l.a <;> cases findNode nodes l.b <;> simp [declaredWiring_length, declaredWiring_wirelessAt]
 
 theorem namesEndpoint_snoc (done : List LinkCfg) (l : LinkCfg) (h : String) (port : Nat) :
     namesEndpoint (done ++ [l]) h port
@@ -936,6 +1179,45 @@ theorem plug_step (n : NodeInv) (hfresh : ∀ c ∈ n.nics, Fresh c) (done : Lis
       simp [h, this]
   rw [e1, e2, Bool.or_assoc]
 
+/-- both ends of one link attached, over the whole node list -/
+theorem plugBoth_step (N0 : List NodeInv) (hfresh : ∀ n ∈ N0, ∀ c ∈ n.nics, Fresh c) (hnd : (N0.map (·.hostname)).Nodup)
+    (done : List LinkCfg) (l : LinkCfg) (hpa : 1 ≤ l.pa) (hpb : 1 ≤ l.pb) :
+    plugAt (plugAt (N0.map (declaredWiring done)) l.a l.pa) l.b l.pb = N0.map (declaredWiring (done ++ [l])) := by
+  have hnd' : ((N0.map (declaredWiring done)).map (·.hostname)).Nodup := by
+    simpa [List.map_map, Function.comp_def, declaredWiring_hostname] using hnd
+  have hnd'' : (((N0.map (declaredWiring done)).map
+      (fun m : NodeInv => if m.hostname = l.a then plugNode m l.pa else m)).map (·.hostname)).Nodup := by
+    have : ∀ m : NodeInv, (if m.hostname = l.a then plugNode m l.pa else m).hostname = m.hostname := by
+      intro m; split <;> rfl
+    have e : (fun x : NodeInv => (if (declaredWiring done x).hostname = l.a then plugNode (declaredWiring done x) l.pa
+        else declaredWiring done x).hostname) = (fun x : NodeInv => x.hostname) := by
+      funext x; rw [this]; rfl
+    simp only [List.map_map, Function.comp_def]
+    rw [e]; exact hnd
+  rw [plugAt_eq_map _ _ _ hnd', plugAt_eq_map _ _ _ hnd'']
+  simp only [List.map_map]
+  apply List.map_congr_left
+  intro n hn
+  exact plug_step n (hfresh n hn) done l hpa hpb
+
+/-- **the wiring a node set does itself**: every link of the list attached at both ends, no lookup that could fail -/
+theorem plugLinks_eq_declared (N0 : List NodeInv) (hfresh : ∀ n ∈ N0, ∀ c ∈ n.nics, Fresh c) (hnd : (N0.map (·.hostname)).Nodup) :
+    ∀ (rest : List LinkInv) (done : List LinkCfg), (∀ l ∈ rest, 1 ≤ l.pa ∧ 1 ≤ l.pb) →
+      plugLinks (N0.map (declaredWiring done)) rest = N0.map (declaredWiring (done ++ rest.map linkCfgOf)) := by
+  intro rest
+  induction rest with
+  | nil => intro done _; simp [plugLinks]
+  | cons l rest ih =>
+    intro done h
+    have hl := h l (by simp)
+    have hstep := plugBoth_step N0 hfresh hnd done (linkCfgOf l) hl.1 hl.2
+    simp only [linkCfgOf] at hstep
+    simp only [plugLinks, List.foldl_cons, hstep] at *
+    have := ih (done ++ [linkCfgOf l]) (fun m hm => h m (by simp [hm]))
+    simp only [linkCfgOf, plugLinks] at this
+    rw [this]
+    simp [linkCfgOf, List.append_assoc]
+
 /-- **the `links` loop**: starting from freshly built nodes, after the whole list every interface a link of the file ends at is
 wired, and enabled iff its node is ON; every other interface is untouched; the links are the declared ones. -/
 theorem buildLinks_eq_declared (N0 : List NodeInv) (hfresh : ∀ n ∈ N0, ∀ c ∈ n.nics, Fresh c)
@@ -959,50 +1241,159 @@ theorem buildLinks_eq_declared (N0 : List NodeInv) (hfresh : ∀ n ∈ N0, ∀ c
         cases hb : findNode N0 l.b with
         | none => simp [ha, hb] at hl
         | some nb =>
-          simp only [ha, hb, decide_eq_true_eq] at hl
-          exact ⟨hl.1, hl.2.2.1⟩
-    have hnd' : ((N0.map (declaredWiring done)).map (·.hostname)).Nodup := by
-      simpa [List.map_map, Function.comp_def, declaredWiring_hostname] using hnd
-    have hnd'' : (((N0.map (declaredWiring done)).map
-        (fun m : NodeInv => if m.hostname = l.a then plugNode m l.pa else m)).map (·.hostname)).Nodup := by
-      have : ∀ m : NodeInv, (if m.hostname = l.a then plugNode m l.pa else m).hostname = m.hostname := by
-        intro m; split <;> rfl
-      have e : (fun x : NodeInv => (if (declaredWiring done x).hostname = l.a then plugNode (declaredWiring done x) l.pa
-          else declaredWiring done x).hostname) = (fun x : NodeInv => x.hostname) := by
-        funext x; rw [this]; rfl
-      simp only [List.map_map, Function.comp_def]
-      rw [e]; exact hnd
-    have hstep : plugAt (plugAt (N0.map (declaredWiring done)) l.a l.pa) l.b l.pb
-        = N0.map (declaredWiring (done ++ [l])) := by
-      rw [plugAt_eq_map _ _ _ hnd', plugAt_eq_map _ _ _ hnd'']
-      simp only [List.map_map]
-      apply List.map_congr_left
-      intro n hn
-      exact plug_step n (hfresh n hn) done l hports.1 hports.2
+          simp only [ha, hb, Bool.and_eq_true, decide_eq_true_eq] at hl
+          exact ⟨hl.1.1.1, hl.1.1.2.2.1⟩
+    have hstep := plugBoth_step N0 hfresh hnd done l hports.1 hports.2
     simp only [buildLinks, hone, hstep, ih (done ++ [l]) (fun m hm => h m (by simp [hm])), List.map_cons,
       List.append_assoc, List.singleton_append]
+
+/-! ### airspace capacities, node sets -/
+
+theorem setCapacity_names (reg : List (String × String)) (e : String × String) (reg' : List (String × String))
+    (h : setCapacity reg e = some reg') : reg'.map (·.1) = reg.map (·.1) := by
+  unfold setCapacity at h
+  split at h
+  · simp only [Option.some.injEq] at h
+    subst h
+    simp only [List.map_map]
+    apply List.map_congr_left
+    intro r _
+    simp only [Function.comp]
+    split <;> rfl
+  · simp at h
+
+/-- the capacity loop leaves, for every registered frequency, the capacity the file gives under its name, else what was there -/
+theorem buildAirspace_eq (cfg : Assoc String String) : ∀ (reg : List (String × String)), (keys cfg).Nodup →
+    (∀ k ∈ keys cfg, reg.any (·.1 = k) = true) →
+    foldM? setCapacity reg cfg = some (reg.map fun r => (r.1, (alookup r.1 cfg).getD r.2)) := by
+  induction cfg with
+  | nil =>
+    intro reg _ _
+    simp only [foldM?, alookup, Option.getD_none, Option.some.injEq]
+    exact (List.map_id' _).symm
+  | cons e rest ih =>
+    intro reg hn hk
+    obtain ⟨k, v⟩ := e
+    simp only [keys, List.map_cons, List.nodup_cons] at hn
+    have hin : reg.any (·.1 = k) = true := hk k (by simp [keys])
+    have hstep : setCapacity reg (k, v) = some (reg.map fun r => if r.1 = k then (r.1, v) else r) := by
+      simp [setCapacity, hin]
+    rw [foldM?_some_step _ _ _ _ _ hstep]
+    rw [ih _ (by simpa [keys] using hn.2) (by
+      intro k' hk'
+      have := hk k' (by simp only [keys, List.map_cons, List.mem_cons]; right; simpa [keys] using hk')
+      simp only [List.any_map, Function.comp_def]
+      rw [List.any_eq_true] at this ⊢
+      obtain ⟨r, hr, hrk⟩ := this
+      refine ⟨r, hr, ?_⟩
+      by_cases h : r.1 = k <;> simp_all)]
+    simp only [List.map_map, Option.some.injEq]
+    apply List.map_congr_left
+    intro r _
+    simp only [Function.comp, alookup]
+    by_cases h : r.1 = k
+    · have hnone : alookup k rest = none := alookup_none_of_not_mem k rest (by simpa [keys] using hn.1)
+      have hk' : k = r.1 := h.symm
+      simp [h, hnone]
+    · have : ¬ k = r.1 := fun e => h e.symm
+      simp [h, this]
+
+theorem officeNode_wf (c : OfficeCfg) (o : ONode) : NodeWF (officeNodeCfg c o) := by
+  have hports : (keys [(1, ({ ip := ipv4 192 168 c.subnetBase (o.octet.getD 1), mask := some defaultMask } : IfCfg))]).Nodup ∧
+      ∀ k ∈ keys [(1, ({ ip := ipv4 192 168 c.subnetBase (o.octet.getD 1), mask := some defaultMask } : IfCfg))],
+        1 ≤ k ∧ k ≤ (none : Option Nat).getD defaultRouterPorts := by
+    refine ⟨by simp [keys], ?_⟩
+    intro k hk
+    simp only [keys, List.map_cons, List.map_nil, List.mem_singleton] at hk
+    subst hk
+    decide
+  have hacl : AclOk [(22, ruleArp), (23, ruleIcmp)] := by
+    refine ⟨by simp [keys], ?_⟩
+    intro k hk
+    simp only [keys, List.map_cons, List.map_nil, List.mem_cons, List.not_mem_nil, or_false] at hk
+    rcases hk with rfl | rfl <;> decide
+  have hempty : AclOk [] := ⟨by simp [keys], by simp [keys]⟩
+  cases hk : o.kind <;> simp only [officeNodeCfg, hk]
+  · exact ⟨by simp, ⟨by simp [keys], by simp [keys]⟩, hempty, Or.inl rfl, (by intro e _; simp [alookup]), by simp, ⟨by simp, by simp⟩,
+           by intro x hx; simp at hx, by intro w hw; simp at hw⟩
+  · exact ⟨by simp, ⟨by simp [keys], by simp [keys]⟩, hempty, Or.inl rfl, (by intro e _; simp [alookup]), by simp, ⟨by simp, by simp⟩,
+           by intro x hx; simp at hx, by intro w hw; simp at hw⟩
+  · exact ⟨by simp, hports, hacl, Or.inl rfl, (by intro e _; simp [alookup]), by simp, ⟨by simp, by simp⟩,
+           by intro x hx; simp at hx, by intro w hw; simp at hw⟩
+  · exact ⟨by simp, ⟨by simp [keys], by simp [keys]⟩, hempty, Or.inl rfl, (by intro e _; simp [alookup]), by simp, ⟨by simp, by simp⟩,
+           by intro x hx; simp at hx, by intro w hw; simp at hw⟩
+
+theorem buildNodeSets_eq_declared : ∀ (sets : List OfficeCfg), (∀ c ∈ sets, OfficeValid c) →
+    buildNodeSets sets = .ok (sets.flatMap (fun c => (officeDeclared c).nodes.map fun o => declaredNode {} (officeNodeCfg c o)),
+                              sets.flatMap (fun c => (officeDeclared c).links)) := by
+  intro sets
+  induction sets with
+  | nil => intro _; rfl
+  | cons c rest ih =>
+    intro h
+    have hb := C20_office_build_eq_declared c (h c (by simp))
+    have hn := buildNodes_eq_declared {} ((officeDeclared c).nodes.map (officeNodeCfg c)) (by
+      intro n hn
+      obtain ⟨o, _, rfl⟩ := List.mem_map.mp hn
+      exact officeNode_wf c o)
+    simp only [buildNodeSets, hb, hn, ih (fun m hm => h m (by simp [hm])), List.flatMap_cons, List.map_map]
+    rfl
+
+/-- every link the office-lan adder makes uses ports ≥ 1 -/
+theorem officeDeclared_ports (c : OfficeCfg) : ∀ l ∈ (officeDeclared c).links, 1 ≤ l.pa ∧ 1 ≤ l.pb := by
+  intro l hl
+  simp only [officeDeclared, List.mem_append, List.mem_flatMap] at hl
+  rcases hl with (hl | hl) | ⟨i, _, hl⟩
+  · split at hl
+    · simp only [List.mem_singleton] at hl; subst hl; simp [oLink, uplinkPort]
+    · simp at hl
+  · split at hl
+    · simp only [List.mem_singleton] at hl; subst hl; simp [oLink, uplinkPort]
+    · split at hl
+      · simp only [List.mem_singleton] at hl; subst hl; simp [oLink, uplinkPort]
+      · simp at hl
+  · simp only [declaredPcLinks, List.mem_append, List.mem_singleton] at hl
+    rcases hl with hl | hl
+    · split at hl
+      · simp only [List.mem_singleton] at hl; subst hl
+        simp only [oLink, uplinkPort, edgeOf, pcsPerSwitch]; omega
+      · simp at hl
+    · subst hl
+      simp only [oLink, portOf, pcsPerSwitch]; omega
 
 /-- the full statement of the first half of C20 for the modelled loader (was FALSE of the code before the F-22 repair, when it
 was kept as `…_partial` + `…_counterexample`; proved in full since `install` replaces an installed namesake). -/
 def C20_FullBuildEqDeclared : Prop := ∀ s : Scenario, WellFormed s → build s = .ok (declared s)
 
-/-- **build_eq_declared** (full strength). For every well-formed scenario the modelled loader builds exactly the declared
-inventory: nodes with their attributes and declared operating state, interfaces and addresses — each wired iff a link of the file
-ends at it and enabled iff it is wired and its node is ON —, ACL rules at their positions, routes, software with options
-(one live instance per name; an entry that configures pre-installed system software replaces the bare instance), every piece of
-software RUNNING iff its node is ON with the configured starting health, users, folders/files, links with bandwidths, agents with
-action maps, rewards, settings. -/
+/-- **build_eq_declared** (full strength). For every well-formed scenario — `nodes:` of every modelled type incl. wireless
+routers, `node_sets:` (office-lan), `links:`, `agents:`, `game:`, `airspace:`, `defaults:` — the modelled loader builds exactly
+the declared inventory: nodes with their attributes and declared operating state, durations (own, else the defaults section's,
+else the library's), interfaces and addresses — each wired iff a link (of the file or of a node set) ends at it and enabled iff
+it is wired and its node is ON; a wireless access point on its declared frequency, enabled iff its node is ON —, ACL rules at
+their positions, routes, software with every declared option showing on the live object with its declared value (one live
+instance per name), every piece of software RUNNING iff its node is ON with the configured starting health, users,
+folders/files, links with bandwidths (node-set links first), agents with action maps, rewards, settings, the game options and
+the capacity of every airspace frequency. -/
 theorem C20_build_eq_declared (s : Scenario) (wf : WellFormed s) : build s = .ok (declared s) := by
-  unfold build declared
-  rw [buildNodes_eq_declared s.nodes wf.nodes]
-  have hfresh : ∀ n ∈ s.nodes.map declaredNode, ∀ c ∈ n.nics, Fresh c := by
+  unfold build
+  have hair : buildAirspace s.airspace = some (declaredAirspace s.airspace) :=
+    buildAirspace_eq s.airspace frequencies wf.airspace.1 (by
+      intro k hk; have := wf.airspace.2 k hk; simpa [knownFrequency] using this)
+  rw [hair]
+  simp only [buildNodes_eq_declared s.defaults s.nodes wf.nodes, buildNodeSets_eq_declared s.nodeSets wf.nodeSets]
+  have hN0 : s.nodes.map (declaredNode s.defaults)
+      ++ s.nodeSets.flatMap (fun c => (officeDeclared c).nodes.map fun o => declaredNode {} (officeNodeCfg c o)) = declaredNodes s := rfl
+  rw [hN0]
+  have hfresh : ∀ n ∈ declaredNodes s, ∀ c ∈ n.nics, Fresh c := by
     intro n hn c hc
-    obtain ⟨m, _, rfl⟩ := List.mem_map.mp hn
-    exact declaredNode_fresh m c hc
-  have hnd : ((s.nodes.map declaredNode).map (·.hostname)).Nodup := by
-    have : ∀ m : NodeCfg, (declaredNode m).hostname = m.hostname := fun _ => rfl
-    simpa [List.map_map, Function.comp_def, this] using wf.hostnames
-  have h0 : (s.nodes.map declaredNode).map (declaredWiring []) = s.nodes.map declaredNode := by
+    unfold declaredNodes at hn
+    rcases List.mem_append.mp hn with hn | hn
+    · obtain ⟨m, _, rfl⟩ := List.mem_map.mp hn
+      exact declaredNode_fresh _ m c hc
+    · obtain ⟨oc, _, hn⟩ := List.mem_flatMap.mp hn
+      obtain ⟨o, _, rfl⟩ := List.mem_map.mp hn
+      exact declaredNode_fresh _ _ c hc
+  have h0 : (declaredNodes s).map (declaredWiring []) = declaredNodes s := by
     have : ∀ n : NodeInv, declaredWiring [] n = n := by
       intro n
       rw [declaredWiring_eq]
@@ -1012,59 +1403,54 @@ theorem C20_build_eq_declared (s : Scenario) (wf : WellFormed s) : build s = .ok
         simp [List.getElem?_mapIdx, namesEndpoint, wire]
       rw [this]
     exact (List.map_congr_left (fun n _ => this n)).trans (List.map_id _)
-  have := buildLinks_eq_declared _ hfresh hnd s.links [] wf.links
-  rw [h0] at this
-  simp only [this, List.nil_append, buildAgents_eq_declared s.agents wf.agents]
+  have hset : ∀ l ∈ s.nodeSets.flatMap (fun c => (officeDeclared c).links), 1 ≤ l.pa ∧ 1 ≤ l.pb := by
+    intro l hl
+    obtain ⟨c, _, hl⟩ := List.mem_flatMap.mp hl
+    exact officeDeclared_ports c l hl
+  have hplug := plugLinks_eq_declared _ hfresh wf.hostnames _ [] hset
+  rw [h0] at hplug
+  rw [hplug]
+  have hlinks := buildLinks_eq_declared _ hfresh wf.hostnames s.links
+    ([] ++ (s.nodeSets.flatMap fun c => (officeDeclared c).links).map linkCfgOf) wf.links
+  rw [hlinks]
+  simp only [declared, declaredSetLinks, List.nil_append, buildAgents_eq_declared s.agents wf.agents]
 
 theorem C20_build_eq_declared_full : C20_FullBuildEqDeclared := C20_build_eq_declared
 
 /-- **one instance per name**: for EVERY node entry (well-formed or not, any number of repeated or re-configured software
 entries, any declared operating state) the built node never holds two live instances of one software name, and every name the
 entry or the node type asks for is present. -/
-theorem C20_software_one_instance_per_name (p : Power) (k : Kind) (n : NodeCfg) :
-    ((installedAfter (installAll p k n)).map (·.name)).Nodup ∧
-    ∀ s ∈ installAll p k n, s.name ∈ (installedAfter (installAll p k n)).map (·.name) := by
+theorem C20_software_one_instance_per_name (d : DefaultsCfg) (p : Power) (k : Kind) (n : NodeCfg) :
+    ((installedAfter (installAll d p k n)).map (·.name)).Nodup ∧
+    ∀ s ∈ installAll d p k n, s.name ∈ (installedAfter (installAll d p k n)).map (·.name) := by
   rw [installedAfter_eq_lastRequests]
   exact ⟨lastRequests_nodup _, lastRequests_names _⟩
 
 /-- **initial software state** (every node entry, well-formed or not): after loading, every piece of software of a node is
-RUNNING iff the node's declared operating state is ON (STOPPED / CLOSED otherwise), and its health is the configured starting
-health (a starting health of UNUSED has become GOOD on a node that is ON). -/
-theorem C20_software_initial_state (p : Power) (k : Kind) (n : NodeCfg) :
-    ∀ sw ∈ softInventory (powerOnSoftware p (installedAfter (installAll p k n))),
+RUNNING iff the node's declared operating state is ON (STOPPED / CLOSED otherwise), its health is the configured starting
+health (a starting health of UNUSED has become GOOD on a node that is ON), and its options are those of some install request
+of that name, read off the live object. -/
+theorem C20_software_initial_state (d : DefaultsCfg) (p : Power) (k : Kind) (n : NodeCfg) :
+    ∀ sw ∈ softInventory (powerOnSoftware p (installedAfter (installAll d p k n))),
       sw.running = decide (p = .on) ∧ sw.live = 1 ∧
-      ∃ r ∈ installRequests k n, r.name = sw.name ∧ sw.opts = r.opts ∧
+      ∃ r ∈ installRequests d k n, r.name = sw.name ∧ sw.opts = readAll r.name r.opts ∧
         sw.health = (if p = .on ∧ r.health0 = .unused then .good else r.health0) := by
   intro sw hsw
-  rw [softInventory_loaded] at hsw
-  unfold declaredSoftware at hsw
+  rw [softInventory_loaded_read] at hsw
   obtain ⟨r, hr, rfl⟩ := List.mem_map.mp hsw
-  refine ⟨rfl, rfl, r, ?_, rfl, rfl, rfl⟩
-  have sub : ∀ (l : List SoftReq), ∀ y ∈ lastReqs l, y ∈ l := by
-    intro l
-    induction l with
-    | nil => intro y hy; simp [lastReqs] at hy
-    | cons a t iht =>
-      intro y hy
-      unfold lastReqs at hy
-      split at hy
-      · exact List.mem_cons_of_mem _ (iht y hy)
-      · rcases List.mem_cons.mp hy with rfl | hy
-        · exact List.mem_cons_self
-        · exact List.mem_cons_of_mem _ (iht y hy)
-  exact sub _ r hr
+  exact ⟨rfl, rfl, r, lastReqs_sub _ r hr, rfl, rfl, rfl⟩
 
 /-- **the configured entry wins**: an application entry whose type no later application entry repeats is the live instance of
 that name after loading, with its own options — also when the node type pre-installs software of that name. -/
-theorem C20_configured_application_wins (p : Power) (k : Kind) (n : NodeCfg) (pre post : List SwCfg) (c : SwCfg)
+theorem C20_configured_application_wins (d : DefaultsCfg) (p : Power) (k : Kind) (n : NodeCfg) (pre post : List SwCfg) (c : SwCfg)
     (h : n.applications = pre ++ c :: post) (hlast : ∀ d ∈ post, d.type ≠ c.type) :
-    ∃ s ∈ installedAfter (installAll p k n), s.name = c.type ∧ s.isApp = true ∧ s.opts = c.opts := by
+    ∃ s ∈ installedAfter (installAll d p k n), s.name = c.type ∧ s.isApp = true ∧ s.opts = c.opts := by
   rw [installedAfter_eq_lastRequests]
   unfold installAll installRequests
   rw [h]
   simp only [List.map_append, List.map_cons]
-  generalize (((systemSoftware k).map (fun (x : String × Bool) => ({ name := x.1, isApp := x.2, opts := "" } : SoftReq))).map
-      (newInstance p) ++ (installServices ((systemSoftware k).map (·.1)) n.services).map (newInstance p)) = front
+  generalize (((systemSoftware k).map sysReq).map
+      (newInstance p) ++ (installServices d ((systemSoftware k).map (·.1)) n.services).map (newInstance p)) = front
   have key : ∀ (front : List Soft) (tail : List Soft) (s : Soft), (∀ d ∈ tail, d.name ≠ s.name) →
       s ∈ lastRequests (front ++ s :: tail) := by
     intro front tail s hs
@@ -1079,16 +1465,19 @@ theorem C20_configured_application_wins (p : Power) (k : Kind) (n : NodeCfg) (pr
       split
       · exact ih
       · exact List.mem_cons_of_mem _ ih
-  let mk : SwCfg → Soft := fun c => newInstance p
-    { name := c.type, isApp := true, opts := c.opts, health0 := c.health.getD .good, initStarts := c.initStarts, configured := true }
+  let mk : SwCfg → Soft := fun c => newInstance p (appReq c)
   have hname : ∀ d : SwCfg, (mk d).name = d.type := fun d => newInstance_name p _
   have := key (front ++ pre.map mk) (post.map mk) (mk c)
     (by intro d hd; rcases List.mem_map.mp hd with ⟨e, he, rfl⟩; rw [hname, hname]; exact hlast e he)
+  have hfields : ∀ r : SoftReq, (newInstance p r).isApp = r.isApp ∧ (newInstance p r).opts = r.opts := by
+    intro r
+    have hs : ∀ s : Soft, (startSw p s).isApp = s.isApp ∧ (startSw p s).opts = s.opts := by
+      intro s; unfold startSw; split <;> exact ⟨rfl, rfl⟩
+    unfold newInstance
+    cases r.initStarts <;> cases r.isApp <;> cases r.configured <;> simp [hs]
   refine ⟨mk c, by simpa [List.append_assoc, mk, Function.comp_def] using this, hname c, ?_, ?_⟩
-  · simp only [mk, newInstance]
-    cases c.initStarts <;> simp [startSw] <;> split <;> simp
-  · simp only [mk, newInstance]
-    cases c.initStarts <;> simp [startSw] <;> split <;> simp
+  · exact (hfields (appReq c)).1
+  · exact (hfields (appReq c)).2
 
 /-! ### key order of mappings is irrelevant -/
 
@@ -1118,18 +1507,6 @@ structure NodePerm (n n' : NodeCfg) : Prop where
   fwPorts : n.fwPorts.Perm n'.fwPorts
   acl : n.acl.Perm n'.acl
   fwAcl : FwAclPerm n.fwAcl n'.fwAcl
-
-theorem mem_of_alookup {κ α} [DecidableEq κ] (k : κ) (v : α) (m : Assoc κ α) (h : alookup k m = some v) : (k, v) ∈ m := by
-  induction m with
-  | nil => simp [alookup] at h
-  | cons e rest ih =>
-    obtain ⟨k', v'⟩ := e
-    simp only [alookup] at h
-    by_cases hk : k' = k
-    · simp only [hk, if_true, Option.some.injEq] at h
-      simp [hk, h]
-    · simp only [hk, if_false] at h
-      exact List.mem_cons_of_mem _ (ih h)
 
 theorem forall₂_alookup (k : String) {mid m' : Assoc String (Assoc Nat Rule)}
     (h : Rel₂ (fun x y => x.1 = y.1 ∧ x.2.Perm y.2) mid m') :
@@ -1184,8 +1561,8 @@ theorem buildFwAcls_perm (n n' : NodeCfg) (hpres : n'.fwAclPresent = n.fwAclPres
 /-- **key_order_irrelevant, one node entry**: for every permutation of the entries of every mapping of a node entry
 (`network_interfaces`, router `ports`, firewall `ports`, `acl`, the firewall's `acl` at both levels) the loader builds the same
 node — or raises the same error. No well-formedness is needed beyond unique keys. -/
-theorem C20_node_key_order_irrelevant (n n' : NodeCfg) (hp : NodePerm n n') (hn : NodeKeysNodup n) :
-    buildNode n' = buildNode n := by
+theorem C20_node_key_order_irrelevant (d : DefaultsCfg) (n n' : NodeCfg) (hp : NodePerm n n') (hn : NodeKeysNodup n) :
+    buildNode d n' = buildNode d n := by
   have hnics : sortByKey n'.nics = sortByKey n.nics :=
     (C20_site_network_interfaces_items hp.nics (by simpa [keys] using hn.nics)).symm
   have hports : ∀ nics, foldM? configurePort nics n'.ports = foldM? configurePort nics n.ports :=
@@ -1200,7 +1577,7 @@ theorem C20_node_key_order_irrelevant (n n' : NodeCfg) (hp : NodePerm n n') (hn 
     buildFwAcls_perm n n' (by rw [hrest]) hp.fwAcl hn.fwAcl hn.fwAclInner
   have hfw : ∀ k nm b, fwNic n' k nm b = fwNic n k nm b := by
     intro k nm b; simp only [fwNic, hfwp, hemp]
-  have hinst : ∀ p k, installAll p k n' = installAll p k n := by intro p k; rw [hrest]; rfl
+  have hinst : ∀ d p k, installAll d p k n' = installAll d p k n := by intro d p k; rw [hrest]; rfl
   have husers : buildUsers n' = buildUsers n := by rw [hrest]; rfl
   have hfold : buildFolders n' = buildFolders n := by rw [hrest]; rfl
   have hk : n'.kind = n.kind := by rw [hrest]
@@ -1215,8 +1592,10 @@ theorem C20_node_key_order_irrelevant (n n' : NodeCfg) (hp : NodePerm n n') (hn 
   have h9 : n'.ip = n.ip := by rw [hrest]
   have h10 : n'.mask = n.mask := by rw [hrest]
   have h11 : n'.numPorts = n.numPorts := by rw [hrest]
+  have h12 : n'.routerIf = n.routerIf := by rw [hrest]
+  have h13 : n'.wap = n.wap := by rw [hrest]
   unfold buildNode
-  simp only [hk, h1, h2, h3, h4, h5, h6, h7, h8, h9, h10, h11, hnics, hports, hacl, hfw, hfwa, hinst, husers, hfold]
+  simp only [hk, h1, h2, h3, h4, h5, h6, h7, h8, h9, h10, h11, h12, h13, hnics, hports, hacl, hfw, hfwa, hinst, husers, hfold]
 
 /-- `a'` is `a` with the entries of its action map in another order. -/
 structure AgentPerm (a a' : AgentCfg) : Prop where
@@ -1233,23 +1612,77 @@ theorem agentOf_perm (a a' : AgentCfg) (hp : AgentPerm a a') (hn : (keys a.actio
   have h5 : a'.settings = a.settings := by rw [hr]
   simp only [agentOf, h1, h2, h3, h4, h5, hact]
 
-/-- `s'` is `s` with the entries of every mapping, in every node entry and every agent entry, in another order
-(lists — nodes, links, routes, services, users, agents, reward components — keep their order). -/
+theorem any_name_map (reg : List (String × String)) (f : String × String → String × String) (hf : ∀ r, (f r).1 = r.1) (k : String) :
+    (reg.map f).any (·.1 = k) = reg.any (·.1 = k) := by
+  rw [List.any_map]
+  congr 1
+  funext r
+  simp [Function.comp, hf]
+
+theorem setCap_pointwise (x y r : String × String) (h : x.1 ≠ y.1) :
+    (if (if r.1 = x.1 then (r.1, x.2) else r).1 = y.1 then ((if r.1 = x.1 then (r.1, x.2) else r).1, y.2)
+      else (if r.1 = x.1 then (r.1, x.2) else r))
+    = (if (if r.1 = y.1 then (r.1, y.2) else r).1 = x.1 then ((if r.1 = y.1 then (r.1, y.2) else r).1, x.2)
+      else (if r.1 = y.1 then (r.1, y.2) else r)) := by
+  obtain ⟨k, v⟩ := r
+  obtain ⟨xk, xv⟩ := x
+  obtain ⟨yk, yv⟩ := y
+  simp only at h ⊢
+  by_cases e1 : k = xk <;> by_cases e2 : k = yk
+  · exact absurd (e1.symm.trans e2) h
+  · subst e1; simp [e2]
+  · subst e2; simp [e1]
+  · simp [e1, e2]
+
+theorem setCapacity_comm (reg : List (String × String)) (x y : String × String) (h : x.1 ≠ y.1) :
+    (setCapacity reg x).bind (fun s => setCapacity s y) = (setCapacity reg y).bind (fun s => setCapacity s x) := by
+  have hx : ∀ r : String × String, ((fun r : String × String => if r.1 = x.1 then (r.1, x.2) else r) r).1 = r.1 := by
+    intro r; by_cases e : r.1 = x.1 <;> simp [e]
+  have hy : ∀ r : String × String, ((fun r : String × String => if r.1 = y.1 then (r.1, y.2) else r) r).1 = r.1 := by
+    intro r; by_cases e : r.1 = y.1 <;> simp [e]
+  unfold setCapacity
+  by_cases ax : reg.any (·.1 = x.1) = true <;> by_cases ay : reg.any (·.1 = y.1) = true
+  · simp only [ax, ay, if_true, Option.bind_some, any_name_map reg _ hx, any_name_map reg _ hy, List.map_map]
+    congr 1
+    apply List.map_congr_left
+    intro r _
+    simp only [Function.comp]
+    first | exact setCap_pointwise x y r h | exact (setCap_pointwise y x r (Ne.symm h)).symm
+  · simp only [ax, ay, if_true, Option.bind_some, Option.bind_none, any_name_map reg _ hx]
+    simp [ay]
+  · simp only [ax, ay, if_true, Option.bind_some, Option.bind_none, any_name_map reg _ hy]
+    simp [ax]
+  · simp [ax, ay]
+
+/-- **site `cfg.items()`** (`AirSpace.set_frequency_max_capacity_mbps`): capacities are set by frequency name. -/
+theorem C20_site_airspace_items {m m' : Assoc String String} (hp : m.Perm m') (hn : (keys m).Nodup) :
+    buildAirspace m = buildAirspace m' := by
+  unfold buildAirspace
+  exact foldM?_perm setCapacity (·.1) (fun s x y hxy => setCapacity_comm s x y hxy) hp (by simpa [keys] using hn) frequencies
+
+/-- `s'` is `s` with the entries of every mapping, in every node entry and every agent entry, and of the airspace capacity
+mapping, in another order (lists — nodes, links, routes, services, users, agents, reward components, node sets — keep their
+order; option mappings are read by key: `C20_live_option_eq_declared` / `C20_lookup_perm`). -/
 structure ScenarioPerm (s s' : Scenario) : Prop where
   nodes : Rel₂ NodePerm s.nodes s'.nodes
   links : s'.links = s.links
   agents : Rel₂ AgentPerm s.agents s'.agents
+  airspace : s.airspace.Perm s'.airspace
+  game : s'.game = s.game
+  defaults : s'.defaults = s.defaults
+  nodeSets : s'.nodeSets = s.nodeSets
 
 structure KeysNodup (s : Scenario) : Prop where
   nodes : ∀ n ∈ s.nodes, NodeKeysNodup n
   agents : ∀ a ∈ s.agents, (keys a.actionMap).Nodup
+  airspace : (keys s.airspace).Nodup
 
-theorem buildNodes_perm {l l' : List NodeCfg} (h : Rel₂ NodePerm l l') (hk : ∀ n ∈ l, NodeKeysNodup n) :
-    buildNodes l' = buildNodes l := by
+theorem buildNodes_perm (d : DefaultsCfg) {l l' : List NodeCfg} (h : Rel₂ NodePerm l l') (hk : ∀ n ∈ l, NodeKeysNodup n) :
+    buildNodes d l' = buildNodes d l := by
   induction h with
   | nil => rfl
   | @cons n n' l l' h _ ih =>
-    simp only [buildNodes, C20_node_key_order_irrelevant n n' h (hk n (by simp)),
+    simp only [buildNodes, C20_node_key_order_irrelevant d n n' h (hk n (by simp)),
       ih (fun m hm => hk m (by simp [hm]))]
 
 theorem agents_perm {l l' : List AgentCfg} (h : Rel₂ AgentPerm l l') (hk : ∀ a ∈ l, (keys a.actionMap).Nodup) :
@@ -1262,20 +1695,21 @@ theorem agents_perm {l l' : List AgentCfg} (h : Rel₂ AgentPerm l l') (hk : ∀
 /-- **key_order_irrelevant**: two scenarios that differ only in the order of the entries of their mappings build equal
 simulations (equal inventories, or the same load error). -/
 theorem C20_key_order_irrelevant (s s' : Scenario) (hp : ScenarioPerm s s') (hn : KeysNodup s) : build s' = build s := by
-  have hnodes : buildNodes s'.nodes = buildNodes s.nodes := buildNodes_perm hp.nodes hn.nodes
+  have hnodes : buildNodes s.defaults s'.nodes = buildNodes s.defaults s.nodes := buildNodes_perm _ hp.nodes hn.nodes
   have hagents : s'.agents.map agentOf = s.agents.map agentOf := agents_perm hp.agents hn.agents
   have hba : buildAgents s'.agents = buildAgents s.agents := by
     unfold buildAgents
     rw [← List.foldl_map (f := agentOf) (g := putAgent), ← List.foldl_map (f := agentOf) (g := putAgent), hagents]
+  have hair : buildAirspace s'.airspace = buildAirspace s.airspace := (C20_site_airspace_items hp.airspace hn.airspace).symm
   unfold build
-  rw [hnodes, hp.links, hba]
+  rw [hair, hp.defaults, hnodes, hp.links, hba, hp.game, hp.nodeSets]
 
 /-! ### F-22 (repaired): configuring pre-installed software replaces the bare instance -/
 
 /-- a client with a configured `web-browser` (pre-installed on every host) — what most shipped scenarios do. -/
 def exShadowNode : NodeCfg :=
   { kind := .computer, hostname := "client_1", ip := some 0xC0A80A15#32,
-    applications := [{ isApp := true, type := "web-browser", opts := "target_url=http://arcd.com/" }] }
+    applications := [{ isApp := true, type := "web-browser", opts := [("target_url", "http://arcd.com/")] }] }
 
 def exShadow : Scenario := { nodes := [exShadowNode], links := [], agents := [] }
 
@@ -1288,33 +1722,47 @@ instance : DecidableEq (Except Err Inventory) := fun a b =>
 
 instance (m : Assoc Nat Rule) : Decidable (AclOk m) := by unfold AclOk; infer_instance
 instance (fs : List FolderCfg) : Decidable (FoldersOk fs) := by unfold FoldersOk; infer_instance
+instance (n : NodeCfg) : Decidable (OptsOk n) := by unfold OptsOk; infer_instance
+instance (m : Assoc String String) : Decidable (AirspaceOk m) := by unfold AirspaceOk; infer_instance
 
 theorem exShadow_wf : WellFormed exShadow := by
-  refine ⟨?_, by decide, by simp [exShadow], by simp [exShadow]⟩
+  refine ⟨?_, by decide, by decide, by decide, by decide, by decide⟩
   intro n hn
   simp only [exShadow, List.mem_singleton] at hn
   subst hn
-  exact ⟨by decide, by decide, by decide, by decide, fun e _ h => absurd h (by decide), by decide, by decide⟩
+  exact ⟨by decide, by decide, by decide, by decide, fun e _ h => absurd h (by decide), by decide, by decide, by decide,
+         by intro w hw; cases hw⟩
 
 /-- the witness of the former counterexample now builds what it declares (regression of F-22 would break this and
 `C20_build_eq_declared`). -/
 example : build exShadow = .ok (declared exShadow) := C20_build_eq_declared exShadow exShadow_wf
 
-/-- exactly ONE live `web-browser`, the configured one. -/
-example : (softInventory (powerOnSoftware .on (installedAfter (installAll .on .computer exShadowNode)))).filter (·.name = "web-browser") =
-    [{ name := "web-browser", isApp := true, opts := "target_url=http://arcd.com/", live := 1, running := true, health := .good }] := by
+/-- exactly ONE live `web-browser`, the configured one; its `target_url` shows with the declared value. -/
+example : (softInventory (powerOnSoftware .on (installedAfter (installAll {} .on .computer exShadowNode)))).filter (·.name = "web-browser") =
+    [{ name := "web-browser", isApp := true, opts := [("target_url", some "http://arcd.com/")], live := 1, running := true,
+       health := .good }] := by
   decide
 
 /-- the same client declared `operating_state: "OFF"`: the browser is there with its option, CLOSED. -/
-example : (softInventory (powerOnSoftware .off (installedAfter (installAll .off .computer exShadowNode)))).filter (·.name = "web-browser") =
-    [{ name := "web-browser", isApp := true, opts := "target_url=http://arcd.com/", live := 1, running := false, health := .good }] := by
+example : (softInventory (powerOnSoftware .off (installedAfter (installAll {} .off .computer exShadowNode)))).filter (·.name = "web-browser") =
+    [{ name := "web-browser", isApp := true, opts := [("target_url", some "http://arcd.com/")], live := 1, running := false,
+       health := .good }] := by
   decide
 
 /-- what the code did before the repair (append without removing the namesake) is NOT what the file declares: the witness that
 was `C20_build_eq_declared_counterexample`, kept as a statement about the old `install`. -/
 theorem C20_install_without_replace_counterexample :
-    softInventory (powerOnSoftware .on (installAll .on .computer exShadowNode)) ≠ declaredSoftware .on .computer exShadowNode := by
+    softInventory (powerOnSoftware .on (installAll {} .on .computer exShadowNode)) ≠ declaredSoftware {} .on .computer exShadowNode := by
   decide
+
+/-- an option a constructor copies to a live attribute under ANOTHER name is read there: a database client's `db_server_ip`
+shows as the value of `server_ip_address`; and were the constructor to forget the assignment (the regenerated table without
+that row) the declared option would NOT show — what `C20_live_option_eq_declared` rules out for the regenerated table. -/
+example : readOption "database-client" [("db_server_ip", "192.168.1.50"), ("server_password", "pw")] "db_server_ip"
+    = some "192.168.1.50" := by decide
+example : (alookup "server_ip_address" (constructLive (chainRows "dos-bot") [("db_server_ip", "1.2.3.4"), ("payload", "x")])) =
+    some (some "1.2.3.4") := by decide
+example : (alookup "c2_remote_connection" (constructLive [] [("c2_server_ip_address", "1.2.3.4")])) = none := by decide
 
 /-! ### non-vacuity: a concrete well-formed scenario with a router, ACL rules out of order, two hosts, a link, an agent -/
 
@@ -1330,7 +1778,7 @@ def exRouter : NodeCfg :=
 def exHost : NodeCfg :=
   { kind := .server, hostname := "db", ip := some 0xC0A80A0A#32, gateway := some 0xC0A80A01#32,
     nics := [(3, { ip := 0xAC100105#32, mask := some 0xFFFF0000#32 }), (2, { ip := 0xC0A80B0A#32, mask := some 0xFFFFFF00#32 })],
-    services := [{ isApp := false, type := "database-service", opts := "fixing_duration=3" }],
+    services := [{ isApp := false, type := "database-service", opts := [("fixing_duration", "3"), ("backup_server_ip", "192.168.10.9")] }],
     users := [{ name := "alice", password := "pw", admin := some true }],
     folders := [{ name := "docs", files := [{ name := "a.txt", size := some 69, ftype := none }] }] }
 
@@ -1341,12 +1789,15 @@ def exAgent : AgentCfg :=
 def exScenario : Scenario :=
   { nodes := [exRouter, exHost], links := [{ a := "router_1", pa := 1, b := "db", pb := 1, bandwidth := none }], agents := [exAgent] }
 
-theorem exScenario_wf : WellFormed exScenario := by
-  refine ⟨?_, by decide, by decide, by decide⟩
+theorem exNodes_wf : ∀ n ∈ [exRouter, exHost], NodeWF n := by
   intro n hn
-  simp only [exScenario, List.mem_cons, List.not_mem_nil, or_false] at hn
+  simp only [List.mem_cons, List.not_mem_nil, or_false] at hn
   rcases hn with rfl | rfl <;>
-    exact ⟨by decide, by decide, by decide, by decide, fun e _ h => absurd h (by decide), by decide, by decide⟩
+    exact ⟨by decide, by decide, by decide, by decide, fun e _ h => absurd h (by decide), by decide, by decide, by decide,
+           by intro w hw; cases hw⟩
+
+theorem exScenario_wf : WellFormed exScenario :=
+  ⟨exNodes_wf, by decide, by decide, by decide, by decide, by decide⟩
 
 /-- in the built router the deny rule sits at position 3 and the HTTP rule at 21 although the file lists 21 first;
 the database server got the FTP client its service brings along; NIC 2 is the entry with key 2. -/
@@ -1354,7 +1805,7 @@ example : (build exScenario).toOption.map (fun inv => inv.nodes.map fun n => (n.
     some [(3, 6), (3, 11)] := by decide
 
 /-- with keys 2, 3 (declared as 3 then 2) NIC number = key: NIC 2 carries the entry under key 2, NIC 3 the one under key 3. -/
-example : (declaredNode exHost).nics.map (·.ip) = [some 0xC0A80A0A#32, some 0xC0A80B0A#32, some 0xAC100105#32] := by decide
+example : (declaredNode {} exHost).nics.map (·.ip) = [some 0xC0A80A0A#32, some 0xC0A80B0A#32, some 0xAC100105#32] := by decide
 
 /-- initial states in the concrete scenario: the router is ON, port 1 is wired and enabled, ports 2 and 3 are not; all its
 software runs. -/
@@ -1368,16 +1819,17 @@ interface is NOT enabled (the router's end is), none of its software runs, the d
 def exHostOff : NodeCfg :=
   { exHost with
     power := some .off,
-    services := [{ isApp := false, type := "database-service", opts := "fixing_duration=3", health := some .compromised }] }
+    services := [{ isApp := false, type := "database-service", opts := [("fixing_duration", "3")], health := some .compromised }] }
 
 def exScenarioOff : Scenario := { exScenario with nodes := [exRouter, exHostOff] }
 
 theorem exScenarioOff_wf : WellFormed exScenarioOff := by
-  refine ⟨?_, by decide, by decide, by decide⟩
+  refine ⟨?_, by decide, by decide, by decide, by decide, by decide⟩
   intro n hn
   simp only [exScenarioOff, exScenario, List.mem_cons, List.not_mem_nil, or_false] at hn
   rcases hn with rfl | rfl <;>
-    exact ⟨by decide, by decide, by decide, by decide, fun e _ h => absurd h (by decide), by decide, by decide⟩
+    exact ⟨by decide, by decide, by decide, by decide, fun e _ h => absurd h (by decide), by decide, by decide, by decide,
+           by intro w hw; cases hw⟩
 
 example : (build exScenarioOff).toOption.map (fun inv => inv.nodes.map fun n =>
       (n.power, n.nics.map (fun c => (c.wired, c.enabled)), n.software.any (·.running))) =
@@ -1388,6 +1840,58 @@ example : (build exScenarioOff).toOption.map (fun inv => inv.nodes.map fun n =>
       (n.software.filter (·.name = "database-service")).map (·.health)) = some [[], [.compromised]] := by decide
 
 example : build exScenarioOff = .ok (declared exScenarioOff) := C20_build_eq_declared _ exScenarioOff_wf
+
+/-- the sections added in round 4, all at once: a wireless router (access point on WIFI_5, declared OFF), an `office-lan` node
+set (2 computers, router), a link from the scenario's router to the node set's switch, `defaults:` (start-up 7, service fix 9 —
+the database service keeps its own 3, restart 4), `game:` and an airspace capacity. -/
+def exWireless : NodeCfg :=
+  { kind := .wirelessRouter, hostname := "wifi", power := some .off, routerIf := some (0xC0A80C01#32, 0xFFFFFF00#32),
+    wap := some { ip := 0x0A0A0A01#32, mask := 0xFFFFFF00#32, frequency := "WIFI_5" },
+    acl := [(1, exRule .permit none)] }
+
+def exFull : Scenario :=
+  { exScenario with
+    nodes := [exRouter, exHost, exWireless],
+    links := exScenario.links ++ [{ a := "router_1", pa := 3, b := "switch_edge_1_LAB", pb := 23, bandwidth := some 0 }],
+    nodeSets := [{ lanName := "LAB", subnetBase := 69, ipStart := 39, numPcs := 2, bandwidth := some 10 }],
+    defaults := { nodeStartUp := some 7, svcFix := some 9, svcRestart := some 4, nodeScan := some 6, folderScan := some 5 },
+    game := { maxLen := some 64, ports := ["80", "5432"], protocols := ["tcp"], seed := some "42" },
+    airspace := [("WIFI_5", "0")] }
+
+theorem exFull_wf : WellFormed exFull := by
+  refine ⟨?_, by decide, by decide, by decide, by decide, by decide⟩
+  intro n hn
+  simp only [exFull, exScenario, List.mem_cons, List.not_mem_nil, or_false] at hn
+  rcases hn with rfl | rfl | rfl
+  · exact exNodes_wf _ (by simp)
+  · exact exNodes_wf _ (by simp)
+  · exact ⟨by decide, by decide, by decide, by decide, fun e _ h => absurd h (by decide), by decide, by decide, by decide,
+           by intro w hw; cases hw; decide⟩
+
+example : build exFull = .ok (declared exFull) := C20_build_eq_declared _ exFull_wf
+
+/-- what that means concretely: 3 + 4 nodes; the wireless access point is on WIFI_5 and disabled (node OFF); the node set's
+switch port 23 is wired to the scenario's router by a link of bandwidth 0; start-up duration 7 from `defaults:` except for the
+node set's nodes (0); the database service keeps fixing duration 3 and gets restart duration 4; WIFI_5 capacity 0. -/
+example : (build exFull).toOption.map (fun inv => (inv.nodes.map (fun n => (n.hostname, n.startUp)), inv.links.length, inv.airspace)) =
+    some ([("router_1", 7), ("db", 7), ("wifi", 7), ("router_LAB", 0), ("switch_edge_1_LAB", 0), ("pc_1_LAB", 0), ("pc_2_LAB", 0)],
+          5, [("WIFI_2_4", "100000000"), ("WIFI_5", "0")]) := by
+  decide
+
+example : (build exFull).toOption.map (fun inv =>
+      (inv.nodes.filter (·.hostname = "wifi")).map (fun n => n.nics.map (fun c => (c.frequency, c.enabled)))) =
+    some [[(some "WIFI_5", false), ((none : Option String), false)]] := by
+  decide
+
+example : (build exFull).toOption.map (fun inv =>
+      (inv.nodes.filter (·.hostname = "db")).map (fun n => (n.software.filter (·.name = "database-service")).map
+          (fun sw => (sw.imposedFix, sw.imposedRestart)))) =
+    some [[((none : Option Nat), some 4)]] := by
+  decide
+
+example : (build exFull).toOption.map (fun inv =>
+      (inv.nodes.filter (·.hostname = "switch_edge_1_LAB")).map (fun n => (n.nics.map (·.enabled)).count true)) = some [4] := by
+  decide
 
 /-- the same scenario with every mapping reversed -/
 def exScenarioRev : Scenario :=
@@ -1482,6 +1986,7 @@ example : scheduleDocs (⟨[(1, ["g1", "r1"]), (0, ["g0", "r0"])],
 
 /-- every mapping-iteration site of the loaders, with the lemma that makes the order of that mapping's entries irrelevant. -/
 def coveredSites : List ((String × String) × String) := [
+  (("PrimaiteGame.from_config", "new_node.file_system.folders.values()"), "the node's own folders, each given the same default: order-free"),
   (("PrimaiteGame.from_config", "sorted(node_cfg['network_interfaces'].items(), key=lambda item: int(item[0]))"), "C20_site_network_interfaces_items"),
   (("Node._install_system_software", "self.SYSTEM_SOFTWARE.items()"), "class constant, not part of the scenario"),
   (("Router.from_config", "ports.items()"), "C20_site_ports_items"),
@@ -1493,7 +1998,8 @@ def coveredSites : List ((String × String) × String) := [
   (("Firewall.from_config", "config['acl']['external_inbound_acl'].items()"), "C20_site_acl_items"),
   (("Firewall.from_config", "config['acl']['external_outbound_acl'].items()"), "C20_site_acl_items"),
   (("WirelessRouter.from_config", "config['acl'].items()"), "C20_site_acl_items"),
-  (("ActionManager.__init__", "self.config.action_map.items()"), "C20_site_action_map_items")]
+  (("ActionManager.__init__", "self.config.action_map.items()"), "C20_site_action_map_items"),
+  (("AirSpace.set_frequency_max_capacity_mbps", "cfg.items()"), "C20_site_airspace_items")]
 
 /-- The regenerated inventory of mapping-iteration sites is exactly the list of sites that have a per-site lemma: a new
 `.items()` / `.values()` / `for k in mapping` in a loader, or a loop that stops sorting, breaks this obligation. -/
@@ -1539,35 +2045,57 @@ theorem C20_gen_loader_reads_only : Gen.Config.loaderConsumesArgument = [] := by
 
 /-- every software constructor applies its configured options by plain assignment (`self.attr = self.config.opt`, at most under
 `if self.config.opt is not None`): no loop, no call fed with configured values, no test of the node's state — so the effect of
-an option cannot depend on the declared operating state of the node or on construction order, which is what the model assumes
-by carrying option mappings through unchanged. The table names, per class, the live attribute that carries each option (the rig
-reads the built value there). -/
+an option cannot depend on the declared operating state of the node or on construction order. The regenerated assignment table
+and the regenerated constructor chains ARE the tables of the model (`initApplies`, `classChains`), over which
+`C20_live_option_eq_declared` / `C20_live_attribute_per_class` are proved: file → option → assignment → live attribute is all in
+Lean; only pydantic's handling of the keyword arguments of the schema is trusted. The one assignment that sits under a test of
+the object's own fresh state (`_fixing_countdown`, only for software that starts FIXING) is listed apart and is not an option
+reading. -/
 theorem C20_gen_software_options_applied : Gen.Config.softwareInitOtherConfigUses = [] ∧
-    Gen.Config.softwareInitApplies = [
-      ("C2Beacon", "c2_remote_connection", "c2_server_ip_address"),
-      ("DNSServer", "dns_table", "domain_mapping"),
-      ("DataManipulationBot", "data_manipulation_p_of_success", "data_manipulation_p_of_success"),
-      ("DataManipulationBot", "payload", "payload"),
-      ("DataManipulationBot", "port_scan_p_of_success", "port_scan_p_of_success"),
-      ("DataManipulationBot", "repeat", "repeat"),
-      ("DataManipulationBot", "server_ip_address", "server_ip"),
-      ("DataManipulationBot", "server_password", "server_password"),
-      ("DatabaseClient", "server_ip_address", "db_server_ip"),
-      ("DatabaseClient", "server_password", "server_password"),
-      ("DatabaseService", "backup_server_ip", "backup_server_ip"),
-      ("DoSBot", "dos_intensity", "dos_intensity"),
-      ("DoSBot", "max_sessions", "max_sessions"),
-      ("DoSBot", "payload", "payload"),
-      ("DoSBot", "port_scan_p_of_success", "port_scan_p_of_success"),
-      ("DoSBot", "repeat", "repeat"),
-      ("DoSBot", "target_ip_address", "target_ip_address"),
-      ("DoSBot", "target_port", "target_port"),
-      ("IOSoftware", "listen_on_ports", "listen_on_ports"),
-      ("NTPClient", "ntp_server", "ntp_server_ip"),
-      ("RansomwareScript", "payload", "payload"),
-      ("RansomwareScript", "server_ip_address", "server_ip"),
-      ("RansomwareScript", "server_password", "server_password"),
-      ("Software", "_fixing_countdown", "fixing_duration"),
-      ("Software", "health_state_actual", "starting_health_state")] := by decide
+    Gen.Config.softwareInitApplies = initApplies ∧ Gen.Config.softwareChains = classChains ∧
+    Gen.Config.softwareInitGuardedApplies = [("Software", "_fixing_countdown", "fixing_duration")] := by decide
+
+/-- the constants and shapes behind the sections modelled in round 4: the registered airspace frequencies with their capacities
+and the access point's default one, capacities given in Mbps × 1024², a wireless router's port 1 = access point / port 2 =
+router interface and the sections its `from_config` applies (incl. `default_route`), the default node scan duration and episode
+length, every key of the `defaults:` section with the statement that applies it (own value first for node durations and the
+service fixing duration; folder durations also on the folders that exist already), and the keys the eight ACL rule loops read
+(shipped spelling `src_ip` first, documented `src_ip_address` as fallback; each wildcard mask from its own key). -/
+theorem C20_gen_round4_constants :
+    Gen.Config.airspaceFrequencies = frequencies ∧ Gen.Config.wirelessDefaultFrequency = defaultFrequency ∧
+    Gen.Config.airspaceCapacityInMbps = true ∧
+    Gen.Config.wirelessRouterPorts = ["WirelessAccessPoint", "RouterInterface"] ∧
+    Gen.Config.wirelessRouterSections = ["router_interface", "wireless_access_point", "acl", "routes", "default_route", "operating_state"] ∧
+    Gen.Config.nodeScanDefault = defaultScan ∧ Gen.Config.episodeLengthDefault = defaultEpisodeLength ∧
+    Gen.Config.defaultsLanding.map (fun e => (e.1, e.2.1)) = [
+      ("folder_restore_duration", "'folder_restore_duration' in defaults_config"),
+      ("folder_restore_duration", "'folder_restore_duration' in defaults_config"),
+      ("folder_scan_duration", "'folder_scan_duration' in defaults_config"),
+      ("folder_scan_duration", "'folder_scan_duration' in defaults_config"),
+      ("node_scan_duration", "'node_scan_duration' in defaults_config"),
+      ("node_shut_down_duration", "'node_shut_down_duration' in defaults_config"),
+      ("node_shut_down_duration", "get"),
+      ("node_start_up_duration", "'node_start_up_duration' in defaults_config"),
+      ("node_start_up_duration", "get"),
+      ("service_fix_duration", "'service_fix_duration' in defaults_config and 'fixing_duration' not in service_cfg.get('options', {})"),
+      ("service_install_duration", "'service_install_duration' in defaults_config"),
+      ("service_restart_duration", "'service_restart_duration' in defaults_config")] ∧
+    Gen.Config.defaultsLanding.map (fun e => e.2.2) = [
+      "folder.restore_duration = int(defaults_config['folder_restore_duration'])",
+      "new_node.file_system._default_folder_restore_duration = int(defaults_config['folder_restore_duration'])",
+      "folder.scan_duration = int(defaults_config['folder_scan_duration'])",
+      "new_node.file_system._default_folder_scan_duration = int(defaults_config['folder_scan_duration'])",
+      "new_node.config.node_scan_duration = int(defaults_config['node_scan_duration'])",
+      "new_node.config.shut_down_duration = int(defaults_config['node_shut_down_duration'])",
+      "defaults_config.get('node_shut_down_duration', 3)",
+      "new_node.config.start_up_duration = int(defaults_config['node_start_up_duration'])",
+      "defaults_config.get('node_start_up_duration', 3)",
+      "new_service.config.fixing_duration = int(defaults_config['service_fix_duration'])",
+      "new_service.install_duration = int(defaults_config['service_install_duration'])",
+      "new_service.restart_duration = int(defaults_config['service_restart_duration'])"] ∧
+    Gen.Config.aclAddressKeys.map (·.1) = ["Router", "Firewall", "Firewall", "Firewall", "Firewall", "Firewall", "Firewall", "WirelessRouter"] ∧
+    Gen.Config.aclAddressKeys.all (fun e => e.2 = ("r_cfg.get('src_ip', r_cfg.get('src_ip_address'))",
+      "r_cfg.get('dst_ip', r_cfg.get('dst_ip_address'))", "r_cfg.get('src_wildcard_mask')", "r_cfg.get('dst_wildcard_mask')")) = true := by
+  decide
 
 end Primaite.Config
